@@ -18,9 +18,9 @@ BIN=$B/sim.test; EXTRA=""
 if [ "$RACE" = race ]; then BIN=$B/sim.race.test; EXTRA="-racelog=$B/race -noref"; export GORACE="log_path=$B/race halt_on_error=0"; fi
 NW=${WORKERS:-8}; PER=$((RUNS/NW))
 for k in $(seq 0 $((NW-1))); do
-  (cd /verif && $BIN -test.run='^TestSim$' -mode=$MODE -seed=$SEED -first=$((k*PER)) -runs=$PER -casedir=$B/cases -out=$B/w$k.json $EXTRA >/dev/null 2>&1) &
+  (cd /verif && $BIN -test.run='^TestSim$' -mode=$MODE -seed=$SEED -first=$((k*PER)) -runs=$PER -casedir=$B/cases -out=$B/w$k.json $EXTRA >$B/w$k.log 2>&1) &
 done
-wait
+wait; head -c 3000 $B/w0.log; ls $B
 python3 - $B $NW <<'PY'
 import json,sys,collections
 b,n=sys.argv[1],int(sys.argv[2])
